@@ -41,7 +41,7 @@ def run_variant(v):
         if v.get("transform") == "rename_locals":
             from . import twins
             twins.rename_tree(os.path.join(REPO, "matid"), dst, suffix=v.get("suffix", "_r"), prefix=v.get("prefix", ""))
-        if v.get("transform") in ("flip_comparisons", "matmul_operator", "swap_branches", "numpy_alias"):
+        if v.get("transform") not in (None, "rename_locals"):
             from . import twins
             twins.transform_tree(os.path.join(REPO, "matid"), dst, v["transform"])
         for rel, old, new in v["edits"]:
